@@ -718,6 +718,7 @@ func typedAPI(repM, repU *Report, wM, wU *CaseWriter, r *rand.Rand, thorough boo
 	apiHookKeyOrder(repM, repU, r)
 	apiInterleavedTaps(repM)
 	apiCtxBuilders(repM, repU)
+	apiNoHalfAssignment(repU)
 	apiRound8More(repM, repU)
 	apiSkipAnything(repU)
 	apiRound8Typed(repM, repU)
@@ -3403,6 +3404,50 @@ func apiLiteralCorners(repU *Report, wU *CaseWriter) {
 			}
 			tyS := coqTy(t)
 			wU.add(fmt.Sprintf("UnmarshalCase %s %s %s %s %s %s %s", coqOpts(false, false, false), reg, tyS, "(zero "+tyS+")", coqTokens(ts), floatTable(ts), uobs(back, e)), desc, true)
+		}
+	}
+}
+
+// ---- partial progress: a pointer is assigned, a slice replaced, an interface filled only when their value is complete;
+// a failure inside them leaves the position as it was ----
+func apiNoHalfAssignment(repU *Report) {
+	type inner struct {
+		A int
+		B string
+	}
+	type holder struct {
+		P  *inner
+		PP **int
+		S  []inner
+		X  any
+		N  int
+	}
+	obj := func(fields ...sb.Token) []sb.Token {
+		return append(append([]sb.Token{tokK(sb.KindObject)}, fields...), tokK(sb.KindObjectEnd))
+	}
+	bad := tokS("not an int")
+	cases := map[string][]sb.Token{
+		"a mismatch inside the pointee":              obj(tokS("N"), tokI(1), tokS("P"), tokK(sb.KindObject), tokS("B"), tokS("b"), tokS("A"), bad),
+		"the stream ends inside the pointee":         obj(tokS("N"), tokI(1), tokS("P"), tokK(sb.KindObject), tokS("A"), tokI(2))[:7],
+		"a mismatch behind two pointer levels":       obj(tokS("N"), tokI(1), tokS("PP"), bad),
+		"a mismatch in the second slice element":     obj(tokS("N"), tokI(1), tokS("S"), tokK(sb.KindArray), tokK(sb.KindObject), tokS("A"), tokI(5), tokK(sb.KindObjectEnd), tokK(sb.KindObject), tokS("A"), bad),
+		"a bad key inside a schema-less map":         obj(tokS("N"), tokI(1), tokS("X"), tokK(sb.KindMap), tokS("k"), tokI(1), tokK(sb.KindArray), tokK(sb.KindArrayEnd), tokI(2), tokK(sb.KindMapEnd)),
+		"the stream ends inside a schema-less array": obj(tokS("N"), tokI(1), tokS("X"), tokK(sb.KindArray), tokI(1), tokI(2))[:8],
+	}
+	for name, ts := range cases {
+		h := holder{S: []inner{{9, "kept"}}}
+		e := guard(func() error { return copyBudget(tokensFrom(ts), sb.Unmarshal(&h)) })
+		repU.Evaluations++
+		repU.count("api:no-half-assignment")
+		if e == nil {
+			repU.violate("C05", "mismatch-accepted", fmt.Sprintf("accepted: %+v", h), name+": ["+descTokens(ts)+"]")
+			continue
+		}
+		if h.P != nil || h.PP != nil || h.X != nil || len(h.S) != 1 || h.S[0] != (inner{9, "kept"}) || h.N != 1 {
+			what := fmt.Sprintf("after the failure (%s) the target holds P=%v PP=%v S=%v X=%v N=%d: a pointer is assigned, a slice replaced and an interface filled only once their value is complete (fields before the failing one keep what they were given)", classOf(e), h.P, h.PP, h.S, h.X, h.N)
+			repU.violate("C05", "half-assigned-on-failure", what, name+": ["+descTokens(ts)+"]")
+			repU.violate("C01", "half-assigned-on-failure", what, name+": ["+descTokens(ts)+"]")
+			repU.violate("C15", "half-assigned-on-failure", what, name+": ["+descTokens(ts)+"]")
 		}
 	}
 }
